@@ -2,6 +2,10 @@
 C04, sparse class: rectangular-region keys (`_set_subtensor` with a scalar, region reads).
 -/
 import PyttbModel.Lemmas.MutArraySparse
+set_option linter.unusedSimpArgs false
+set_option linter.unusedVariables false
+set_option linter.unusedSectionVars false
+
 namespace Pyttb
 
 variable {α : Type}
